@@ -149,16 +149,39 @@ def m_freeze(I, st, t, args, site, depth):
     return [(st, args[0])]
 
 
+def capacity_of(st, key):
+    return st.bufs.get(("cap", key))
+
+
 def m_new(I, st, t, args, site, depth):
     n = sum(1 for e in st.events if e.kind == "buf" and e.name == "new")
     res = ("newbuf", site[0].split("::")[-1], n)
     st.events.append(Event("buf", "new", list(args), site, t.span, tuple(I.ctx), res, extra={"op": "new", "capacity": args[0] if args else 0}))
     st.bufs[res] = (0, 0)
+    st.bufs[("cap", res)] = args[0] if args else 0
+    return [(st, res)]
+
+
+def m_read_buf(I, st, t, args, site, depth):
+    """tokio read_buf(stream, buf): appends at most capacity - len bytes (BytesMut grows by 64 when full: noted)"""
+    key = buf_key(I, st, args[1])
+    cap = capacity_of(st, key)
+    ln = buf_len(st, key)
+    free = lin_add(cap, ln, -1) if cap is not None else None
+    nth = sum(1 for e in st.events if e.kind == "buf" and e.name == "read_buf")
+    res = ("call", "tokio::io::AsyncReadExt::read_buf", (site[0], site[1], nth), (tform(I.snapshot(st, args[0])), key))
+    st.events.append(Event("buf", "read_buf", [key], site, t.span, tuple(I.ctx), res, extra={"op": "read_buf", "buf": key, "capacity": cap, "len": ln, "free": free}))
+    st.events.append(Event("call", "tokio::io::AsyncReadExt::read_buf", [I.snapshot(st, args[0]), key], site, t.span, tuple(I.ctx), res, t.callee))
     return [(st, res)]
 
 
 def m_reserve(I, st, t, args, site, depth):
     key = buf_key(I, st, args[0])
+    cap = capacity_of(st, key)
+    if cap is not None:
+        need = lin_add(buf_len(st, key), args[1], 1)
+        # reserve never shrinks: capacity' = max(capacity, len + additional)
+        st.bufs[("cap", key)] = ("max", tform(cap), tform(need)) if need is not None else None
     st.events.append(Event("buf", "reserve", [key, args[1]], site, t.span, tuple(I.ctx), None, extra={"op": "reserve", "buf": key, "size": args[1]}))
     return [(st, TupleV([]))]
 
@@ -238,5 +261,6 @@ BUF_MODELS.update(
         "bytes::BytesMut::extend_from_slice": m_put_slice,
         "bytes::Bytes::len": m_bytes_len,
         "bytes::Bytes::new": m_bytes_new,
+        "tokio::io::AsyncReadExt::read_buf": m_read_buf,
     }
 )
